@@ -145,6 +145,16 @@ def sentinel_arms(case, results=()):
                 cand.append((i, now, 50))
             if cold:
                 cand += [(i, now, 200), (i, now, 250)]
+        elif o[0] in ('Q', 'I', 'X', 'D', 'M'):
+            # public calls: SendIsoAddressClaim(.., FromNow) arms the pending claim with its argument, SetDeviceInformationInstances with 2 ms,
+            # Restart the claim windows; the sending ones may open a cold node (200, 250) or fail and arm a retry
+            if o[0] == 'Q' and len(o) > 4 and o[1] == 'ac' and o[4].isdigit() and int(o[4]) > 0:
+                cand.append((i, now, int(o[4])))
+            cand += [(i, now, 2), (i, now, 250)]
+            if cold:
+                cand.append((i, now, 200))
+            for s_ in addresses_in(case, results):
+                cand += [(i, now, 187 + s_ * 8), (i, now, 187 + s_ * 10)]
         elif o[0] == 'P':
             if cold:
                 cand += [(i, now, 200), (i, now, 250)]
@@ -169,6 +179,10 @@ def norm_dump(dump, t0, fs):
     so it is comparable modulo 2^32 only; reassembly slots carry the 32-bit MsgTime as 9th field"""
     M = M32 if fs == 'w32' else M64
     d = re.sub(r'\b(claim|pc|pp|pf)=(\d+)', lambda m: '%s=@%d' % (m.group(1), (int(m.group(2)) - t0) % M), dump)
+    if not re.match(r'\s*open=3', dump):
+        # a node that has not completed Open(): the heartbeat schedulers refer to the absolute clock (SyncOffset is set at open, where every
+        # schedule is recomputed) and nothing can observe them - SendHeartbeat does nothing before open; their next time is not compared
+        d = re.sub(r'\bhb=(\d+)/', 'hb=@-/', d)
     d = re.sub(r'\bhb=(\d+)/', lambda m: 'hb=@%d/' % ((int(m.group(1)) - t0) % M), d)
 
     def slots(m):
